@@ -137,4 +137,50 @@ theorem sorted_ext {α} : ∀ (l1 l2 : List (Nat × α)), SortedKeys l1 → Sort
         · have := h2.head_lt z hz; rw [e] at this; omega
         · exact hz'
 
+/-! ### inserting a whole sorted map into another -/
+
+abbrev insAll {α} (a b : List (Nat × α)) : List (Nat × α) := b.foldl (fun m e => insertSortedBy e.1 e.2 m) a
+
+def CommonKey {α} (a b : List (Nat × α)) : Prop := ∃ x ∈ a, ∃ y ∈ b, x.1 = y.1
+
+theorem sorted_insAll {α} (b : List (Nat × α)) : ∀ a : List (Nat × α), SortedKeys a → SortedKeys (insAll a b) := by
+  induction b with
+  | nil => intro a h; exact h
+  | cons y ys ih => intro a h; simp only [insAll, List.foldl_cons]; exact ih _ (sorted_insertSortedBy _ _ _ h)
+
+/-- without a common key the result holds exactly the entries of both maps -/
+theorem mem_insAll {α} (b : List (Nat × α)) : ∀ a : List (Nat × α), SortedKeys a → SortedKeys b → ¬ CommonKey a b →
+    ∀ x, x ∈ insAll a b ↔ x ∈ a ∨ x ∈ b := by
+  induction b with
+  | nil => intro a _ _ _ x; simp [insAll]
+  | cons y ys ih =>
+    intro a ha hb hc x
+    simp only [insAll, List.foldl_cons]
+    have hya : ∀ z ∈ a, z.1 ≠ y.1 := fun z hz e => hc ⟨z, hz, y, by simp, e⟩
+    have hc' : ¬ CommonKey (insertSortedBy y.1 y.2 a) ys := by
+      rintro ⟨z, hz, w, hw, e⟩
+      rcases (mem_insertSortedBy y.1 y.2 a ha z).mp hz with rfl | ⟨hz', _⟩
+      · have := hb.head_lt w hw; simp only at e; omega
+      · exact hc ⟨z, hz', w, List.mem_cons_of_mem _ hw, e⟩
+    have := ih (insertSortedBy y.1 y.2 a) (sorted_insertSortedBy _ _ _ ha) hb.tail hc' x
+    show x ∈ insAll (insertSortedBy y.1 y.2 a) ys ↔ _
+    rw [this, mem_insertSortedBy y.1 y.2 a ha x]
+    constructor
+    · rintro ((h | ⟨h, _⟩) | h)
+      · right; rw [h]; simp
+      · exact Or.inl h
+      · right; exact List.mem_cons_of_mem _ h
+    · rintro (h | h)
+      · exact Or.inl (Or.inr ⟨h, hya x h⟩)
+      · rcases List.mem_cons.mp h with rfl | h'
+        · exact Or.inl (Or.inl rfl)
+        · exact Or.inr h'
+
+/-- inserting the entries of a sorted map one by one into the empty map rebuilds it -/
+theorem insAll_nil {α} (b : List (Nat × α)) (hb : SortedKeys b) : insAll [] b = b := by
+  apply sorted_ext _ _ (sorted_insAll b [] trivial) hb
+  intro x
+  rw [mem_insAll b [] trivial hb (by rintro ⟨z, hz, _⟩; cases hz) x]
+  simp
+
 end Lc3V
